@@ -7,7 +7,7 @@ M: TLC explores the algorithm of _intersection.intersection (spec/Intersect.tla:
    probes -> max) for all star-shaped lattice polygons, against the declarative operators of
    IntersectOps / DesignCondOps.  Named deviations (each must violate its invariant):
    strict upper parameter bound, np.min for np.max, the removed `assert len(x) <= 2`, and the
-   probe margin 0.1*max(y) on a polygon below the axis (a defect of the current tree).
+   probe margin 0.1*max(y) on a polygon below the axis (as coded before its repair; thorough tier).
 R: TLC emits every lattice case (IntersectGen, DesignCond/GenSpec); each is run through the
    real functions.
 V: spec/Trace_C17.tla judges every execution: lattice cases against the rational expectation,
@@ -180,6 +180,7 @@ def dcf_record(cdc, case, obj=None):
     mx = max(float(np.abs(coords).max()), max([abs(float(s)) for s in steps], default=0.0) if kind == "list" else 0.0, 1e-300)
     scale = 10.0 ** math.floor(8.9 - math.log10(mx))
     q = lambda v: Q(v, scale)
+    qg = lambda v: Qc(v, scale, -2_000_000_000, 2_000_000_000)     # returned values: a wild one is a verdict
 
     def call(c, sw, on=None):
         target = on if on is not None else StandIn(c)
@@ -198,8 +199,8 @@ def dcf_record(cdc, case, obj=None):
             dc = np.zeros((0, 2))
         dc = dc.reshape(-1, 2)
         rxf = [float(v) for v in dc[:, 0]]
-        rec["rx"] = [q(v) for v in rxf]
-        rec["ry"] = [q(v) for v in dc[:, 1]]
+        rec["rx"] = [qg(v) for v in rxf]
+        rec["ry"] = [qg(v) for v in dc[:, 1]]
         if kind == "list":
             xs = [float(s) for s in steps]
             rk, ptr = [], 0
@@ -215,7 +216,7 @@ def dcf_record(cdc, case, obj=None):
             xs = rxf
             rk = list(range(1, len(xs) + 1))
             rec["nsteps"] = 10 if kind == "none" else int(steps)
-        rec["xs"] = [q(v) for v in xs]
+        rec["xs"] = [qg(v) for v in xs]
         hs = [hits_at(v, xc, yc) for v in xs]
         rec["hits"] = [[q(h) for h in h_] for h_, _ in hs]
         rec["steep"] = [[[q(a), q(b)] for a, b in st_] for _, st_ in hs]
@@ -225,8 +226,8 @@ def dcf_record(cdc, case, obj=None):
         rec["xmin"], rec["xmax"] = q(float(xc.min())), q(float(xc.max()))
         if swap:
             dc2 = call(coords[:, ::-1], False).reshape(-1, 2)
-            rec["rx2"] = [q(v) for v in dc2[:, 0]]
-            rec["ry2"] = [q(v) for v in dc2[:, 1]]
+            rec["rx2"] = [qg(v) for v in dc2[:, 0]]
+            rec["ry2"] = [qg(v) for v in dc2[:, 1]]
     except Machinery:
         raise
     except Exception as e:  # noqa
@@ -322,8 +323,8 @@ def steps_variants(rng, coords, swap):
 
 
 def dcf_cases(ctx, vc, rng):
-    nstar = ctx.pick(150, 1500)
-    ncont = ctx.pick(45, 450)
+    nstar = ctx.pick(150, 1000)
+    ncont = ctx.pick(45, 300)
     polys = [("star", star_polygon(rng)) for _ in range(nstar)] + model_contours(vc, rng, ncont)
     for idx, (src, co) in enumerate(polys):
         for swap in (False, True):
@@ -531,15 +532,15 @@ def run(ctx):
                     must_cover=("Close", "Probe", "Finish"), timeout=3000)
     ctx.model_check("DesignCond", "MC_DesignCond_min.cfg", expect_violation="DesignHolds")
     ctx.model_check("DesignCond", "MC_DesignCond_assert.cfg", expect_violation="NoError")
-    ctx.model_check("DesignCond", "MC_DesignCond_neg.cfg", expect_violation="DesignHolds")
     if not q:
+        ctx.model_check("DesignCond", "MC_DesignCond_neg.cfg", expect_violation="DesignHolds")
         ctx.model_check("DesignCond", "MC_DesignCond_negfix.cfg", must_cover=("Probe",))
     rng = np.random.default_rng(ctx.seed + 17)
     # R + V: intersection
     gen = ctx.generate("IntersectGen", ctx.pick("Gen_Intersect_quick.cfg", "Gen_Intersect_thorough.cfg"), timeout=3000)
     cases = [dict(kind="isect", p=g["p"], q=g["q"]) for g in gen]
-    sc = [dict(c, unit=0.3, offx=-1.7, offy=0.9) for c in cases[::ctx.pick(7, 11)]]
-    rp = list(random_polylines(rng, ctx.pick(2000, 30000)))
+    sc = [dict(c, unit=0.3, offx=-1.7, offy=0.9) for c in cases[::ctx.pick(15, 11)]]
+    rp = list(random_polylines(rng, ctx.pick(1500, 20000)))
     recs = judge(ctx, vc, cases + sc + rp, "lattice polyline pairs + random integer polylines", selftest=True)
     ctx.sample({"emitted": gen[len(gen) // 3], "record": recs[len(gen) // 3]})
     ctx.notes["lattice_polyline_pairs"] = len(gen)
